@@ -7,6 +7,7 @@ import (
 	"os"
 	"runtime/debug"
 	"strconv"
+	"sync/atomic"
 	"time"
 )
 
@@ -15,10 +16,10 @@ import (
 type WorkerSpec struct {
 	Prop     string `json:"prop"`
 	Tier     string `json:"tier"`
-	Base     uint64 `json:"base"`   // base seed (VERIF_SEED)
-	Start    uint64 `json:"start"`  // first run index of this worker
-	Stride   uint64 `json:"stride"` // distance between its run indices
-	Count    uint64 `json:"count"`  // number of runs it owns
+	Base     uint64 `json:"base"`             // base seed (VERIF_SEED)
+	Start    uint64 `json:"start"`            // first run index of this worker
+	Stride   uint64 `json:"stride"`           // distance between its run indices
+	Count    uint64 `json:"count"`            // number of runs it owns
 	Deadline int64  `json:"deadline_unix_ms"` // safety net only
 	Out      string `json:"out"`
 	Trace    bool   `json:"trace"` // determinism self-test: record a trace hash per run
@@ -28,15 +29,33 @@ type WorkerSpec struct {
 
 // WorkerResult is what a worker writes back.
 type WorkerResult struct {
-	Spec       WorkerSpec        `json:"spec"`
-	Stats      *Stats            `json:"stats"`
-	Runs       uint64            `json:"runs"`
-	Completed  bool              `json:"completed"` // ran its whole quota (not stopped by the deadline)
-	Violations []*Violation      `json:"violations"`
-	Traces     map[string]string `json:"traces,omitempty"` // run index -> trace hash
+	Spec       WorkerSpec          `json:"spec"`
+	Stats      *Stats              `json:"stats"`
+	Runs       uint64              `json:"runs"`
+	Completed  bool                `json:"completed"` // ran its whole quota (not stopped by the deadline)
+	Violations []*Violation        `json:"violations"`
+	Traces     map[string]string   `json:"traces,omitempty"` // run index -> trace hash
 	TraceLogs  map[string][]string `json:"trace_logs,omitempty"`
-	WallS      float64           `json:"wall_s"`
-	Crash      string            `json:"crash,omitempty"`
+	WallS      float64             `json:"wall_s"`
+	Crash      string              `json:"crash,omitempty"`
+	Hang       *World              `json:"hang,omitempty"` // the world that was running when the watchdog fired
+}
+
+var hangLimitMs = int64(20000)
+
+// LoadWorldFromReplay reads the world out of a replay file.
+func LoadWorldFromReplay(path string) (*World, error) {
+	b, err := os.ReadFile(path)
+	if err != nil {
+		return nil, err
+	}
+	var rf struct {
+		World *World `json:"world"`
+	}
+	if err := json.Unmarshal(b, &rf); err != nil || rf.World == nil {
+		return nil, fmt.Errorf("bad replay file %s: %v", path, err)
+	}
+	return rf.World, nil
 }
 
 // RunWorker executes a worker spec in this process.
@@ -54,6 +73,28 @@ func RunWorker(spec WorkerSpec) *WorkerResult {
 		spec.MaxViol = 8
 	}
 	classes := map[string]int{}
+	// Watchdog: the one place a real clock influences anything. A run that
+	// makes no progress for 20 s is recorded as a suspected hang; the driver
+	// re-runs that world alone and only a hang that reproduces is reported.
+	var curWorld atomic.Pointer[World]
+	var curStart atomic.Int64
+	stopWatch := make(chan struct{})
+	defer close(stopWatch)
+	go func() {
+		for {
+			select {
+			case <-stopWatch:
+				return
+			case <-time.After(time.Second):
+			}
+			if s := curStart.Load(); s != 0 && time.Now().UnixMilli()-s > hangLimitMs {
+				res.Hang = curWorld.Load()
+				res.Stats = NewStats() // the live one is being written by the stuck run
+				WriteResult(res)
+				os.Exit(3)
+			}
+		}
+	}()
 	for n := uint64(0); n < spec.Count; n++ {
 		if spec.Deadline > 0 && n%16 == 0 && time.Now().UnixMilli() > spec.Deadline {
 			break
@@ -67,8 +108,20 @@ func RunWorker(spec WorkerSpec) *WorkerResult {
 					res.Crash = fmt.Sprintf("harness panic at run %d seed %d: %v\n%s", idx, seed, r, debug.Stack())
 				}
 			}()
-			w := p.Gen(NewRng(seed), spec.Tier)
-			w.Seed = seed
+			var w *World
+			if spec.Replay != "" {
+				lw, err := LoadWorldFromReplay(spec.Replay)
+				if err != nil {
+					panic(err)
+				}
+				w = lw
+			} else {
+				w = p.Gen(NewRng(seed), spec.Tier)
+				w.Seed = seed
+			}
+			curWorld.Store(w.Clone())
+			curStart.Store(time.Now().UnixMilli())
+			defer curStart.Store(0)
 			st.trace = 0
 			st.TraceLog = nil
 			st.Worlds++
